@@ -20,6 +20,7 @@ package classdef
 
 import (
 	"fmt"
+	"math"
 	"sort"
 
 	"seehuhn.de/go/sfnt/glyph"
@@ -159,6 +160,10 @@ func (info Table) getEncInfo() *encInfo {
 	}
 
 	format1Size := 6 + 2*(int(maxGid)-int(minGid)+1)
+	if int(maxGid)-int(minGid)+1 > 0xFFFF {
+		// The glyph count field of format 1 has only 16 bits.
+		format1Size = math.MaxInt
+	}
 
 	segCount := 0
 	segStart := -1
@@ -225,6 +230,9 @@ func (info Table) Append(buf []byte) []byte {
 	}
 
 	segCount := (encInfo.format2Size - 4) / 6
+	if segCount > 0xFFFF {
+		panic("class definition table too large")
+	}
 	buf = append(buf, 0, 2, byte(segCount>>8), byte(segCount))
 	segStart := -1
 	var segClass uint16
